@@ -155,7 +155,12 @@ static inline sv_t sv_substr(sv_t s, size_t pos, size_t n){
     __CPROVER_assert(m->iter==0,"unordered_map modified during range-for (iterator invalidation)"); \
     size_t i_ = NAME##_find(m,k); if(i_ != m->size){ \
       for(size_t k_=0;k_<(CAP);++k_){ if(k_>=i_ && k_+1<m->size){ m->keys[k_]=m->keys[k_+1]; m->vals[k_]=m->vals[k_+1]; } } m->size=m->size-1; } } \
-  static inline void NAME##_clear(NAME* m){ m->size=0; }
+  static inline void NAME##_clear(NAME* m){ m->size=0; } \
+  /* operator[]: index of the entry for k, value-initialised and inserted when absent (insertion = possible rehash) */ \
+  static inline size_t NAME##_ref_index(NAME* m, K k){ size_t i_ = NAME##_find(m,k); \
+    if(i_ == m->size){ __CPROVER_assert(m->iter==0,"unordered_map::operator[] inserts during range-for (iterator invalidation)"); \
+      __CPROVER_assert(m->size < (CAP),"capacity bound of the check exceeded"); m->keys[m->size]=k; m->vals[m->size]=(V)0; m->size=m->size+1; } \
+    return i_; }
 
 /* ---------- std::set<std::pair<A,B>> (static lookup tables) ---------- */
 #define CC_DEFINE_PSET(NAME,A,B,CAP) \
